@@ -472,7 +472,13 @@ func smallPolicies(tier string, seed int64, perFamily int) []Policy {
 	count := map[string]int{}
 	var out []Policy
 	for _, p := range all {
-		if tier != "thorough" && count[p.Family] >= perFamily {
+		// thorough: five times as many policies per family (the whole corpus — 4816 C05 cases — ran
+		// clean once but needs more than an hour; see DESIGN §12.6)
+		lim := perFamily
+		if tier == "thorough" {
+			lim = 5 * perFamily
+		}
+		if count[p.Family] >= lim {
 			continue
 		}
 		count[p.Family]++
